@@ -146,7 +146,7 @@ MUTANTS += [
          edits=[('bmtree/newpath.go', 'prev := ^uint64(0)', 'prev := uint64(0)')]),
     dict(name='c11-equiv-tobyte', props=['C11'], expect='silent',
          desc='EQUIVALENT edit: toByte rounded with +8 (the extra byte is shifted out; must stay silent)',
-         edits=[('bitmap/fromstr32.go', 'toByte := (tobit + 7) >> 3', 'toByte := (tobit + 8) >> 3')]),
+         edits=[('bitmap/fromstr32.go', 'toByte := tobit>>3 + (tobit&7+7)>>3', 'toByte := tobit>>3 + (tobit&7+8)>>3')]),
     dict(name='c14-getw-mask-mod64', props=['C14'],
          desc='Getw masks with Mask[w&63] (width 64 reads 0; widths 4, 8, 16, 64 are never executed by the suite)',
          edits=[('bitmap/get.go', '& Mask[w]', '& Mask[w&63]')]),
@@ -189,4 +189,19 @@ MUTANTS += [
     dict(name='w32-c16-firstdiff-leadingzeros-uint', props=['C16'],
          desc='FirstDiffBits uses bits.LeadingZeros(uint(x)) on the 8-byte chunk difference: on 32-bit builds the upper half is cut off',
          edits=[('sigbits/firstdiff.go', 'first := bits.LeadingZeros64(au ^ bu)', 'first := bits.LeadingZeros(uint(au ^ bu))')]),
+]
+MUTANTS += [
+    # ---- reverted repairs of the int32-top defects (visible only on bitmaps of 2^25 words / strings of 2^28 bytes)
+    dict(name='c01-revert-rank128-overflow-fix', props=['C01'],
+         desc='Rank128 indexes with (i+64)>>7 again: panics for i >= 2^31-64 on a bitmap of 2^25 words',
+         edits=[('bitmap/rank.go', 'n := rindex[(wordI+1)>>1]', 'n := rindex[(i+64)>>7]')]),
+    dict(name='c12-revert-toarray-int64-fix', props=['C12'],
+         desc='ToArray bounds its loop with int32(len(words)*64) again: empty result for a bitmap of 2^25 words',
+         edits=[('bitmap/toarray.go', 'l := int64(len(words)) * 64\n\n\tfor i := int64(0); i < l; i++ {', 'l := int64(int32(len(words) * 64))\n\n\tfor i := int64(0); i < l; i++ {')]),
+    dict(name='c12-revert-of-int64-fix', props=['C12'],
+         desc='Of adds 1 to the last position in int32 again: wraps for the last position MaxInt32',
+         edits=[('bitmap/of.go', 'max := int64(bitPositions[len(bitPositions)-1]) + 1', 'max := int64(bitPositions[len(bitPositions)-1] + 1)')]),
+    dict(name='c11-revert-fromstr32-bitcount-fix', props=['C11'],
+         desc='FromStr32 computes the remaining bit count in int32 again: wraps for strings of 2^28 bytes',
+         edits=[('bitmap/fromstr32.go', 'rest := int64(len(s))<<3 - int64(frombit)', 'rest := int64(int32(len(s)<<3) - frombit)')]),
 ]
